@@ -111,7 +111,7 @@ def run(r):
         lits = [f"(match load (cpy_cfg {magic}) {C.blist(x['payload'])} with Ok (v, st) => zlen (inp st) :: obs_pv [] v | Err e => [1; err_code e] end, {C.zlist(x['obs'])})"
                 for v, magic, x in spec]
         bad, errs = C.coq_cases(r.wd, "speccode", HEADER, "list Z * list Z", "fun c => zlist_eqb (fst c) (snd c)", lits, chunk=25)
-        if errs or bad:
+        if C.spec_problem(r, errs, bad):
             print("MACHINERY-ERROR: marshal spec disagrees with the interpreter's own load of its own code object:", errs[:1], [(spec[b][0], spec[b][2]["name"]) for b in bad[:5]])
             raise SystemExit(2)
         r.cov["spec_validation"] = {"code_objects_checked_against_real_marshal_loads": len(lits), "interpreters": list(c10.ORACLE_MAGIC), "disagreements": 0}
